@@ -315,6 +315,21 @@ func HiddenLR(r *rand.Rand) *Grammar {
 			}
 			alts = append(alts, g.Mk(OpSeqOf, kids...))
 		}
+		if r.Intn(3) == 0 {
+			// the recursion hidden in a repetition: a list whose VALUES may be empty and whose SEPARATOR (or element) starts
+			// with the nonterminal - the separator runs at the list's own start position when the first value is empty
+			sep := g.Mk(OpSeqOf, g.Ref(r.Intn(n)), rn())
+			switch r.Intn(4) {
+			case 0:
+				alts = append(alts, g.Mk(OpSepBy, nullable(), sep))
+			case 1:
+				alts = append(alts, g.Mk(OpSepBy1, nullable(), sep))
+			case 2:
+				alts = append(alts, g.Mk(OpMany, g.Mk(OpSeqOf, nullable(), g.Ref(r.Intn(n)), rn())))
+			default:
+				alts = append(alts, g.Mk(OpSeqOf, g.Mk(OpMany, rn()), g.Ref(r.Intn(n)), rn()))
+			}
+		}
 		base := rn()
 		if r.Intn(4) == 0 {
 			base = g.Mk(OpEmpty)
@@ -326,6 +341,53 @@ func HiddenLR(r *rand.Rand) *Grammar {
 		}
 		g.NTs[i] = g.Mk(OpAny, alts...)
 	}
+	return g
+}
+
+// TrimSeq generates token-level grammars in which trimming meets optional and alternative tokens: a sequence of
+// elements, each a rune, an optional rune, a left-trimmed (any mode) or right-trimmed (never-failing mode) one, or an
+// Any of differently trimmed optional / plain alternatives - so that one result list holds empty matches and tokens
+// that end on either side of a whitespace run. All operands are free of nonterminal references (fresh nodes).
+func TrimSeq(r *rand.Rand) *Grammar {
+	g := New("ab \n", 1)
+	letters := "ab"
+	rn := func() *Expr { return g.Rune(letters[r.Intn(2)]) }
+	lt := func(e *Expr, mode int) *Expr { w := g.Mk(OpLTrim, e); w.C = byte(mode); return w }
+	rt := func(e *Expr) *Expr { w := g.Mk(OpRTrim, e); w.C = 2; return w }
+	elem := func() *Expr {
+		switch r.Intn(12) {
+		case 0:
+			return rn()
+		case 1:
+			return g.Mk(OpOpt, rn())
+		case 2:
+			return lt(rn(), r.Intn(4))
+		case 3:
+			return lt(g.Mk(OpOpt, rn()), r.Intn(4))
+		case 4:
+			return g.Mk(OpAny, g.Mk(OpOpt, rn()), lt(g.Mk(OpOpt, rn()), 2))
+		case 5:
+			return g.Mk(OpAny, lt(g.Mk(OpOpt, rn()), 2), g.Mk(OpOpt, rn()))
+		case 6:
+			return g.Mk(OpAny, lt(rn(), 2), rn())
+		case 7:
+			return rt(g.Mk(OpOpt, rn()))
+		case 8:
+			return rt(g.Mk(OpAny, rn(), g.Mk(OpSeqOf, rn(), rn())))
+		case 9:
+			return g.Mk(OpAny, g.Mk(OpEmpty), lt(g.Mk(OpEmpty), 2), rn())
+		case 10:
+			return g.Mk(OpChoice, lt(rn(), r.Intn(4)), lt(rn(), r.Intn(4)))
+		default:
+			return g.Mk(OpAny, rt(g.Mk(OpOpt, rn())), g.Mk(OpOpt, rn()))
+		}
+	}
+	var kids []*Expr
+	for i, k := 0, 2+r.Intn(4); i < k; i++ {
+		kids = append(kids, elem())
+	}
+	g.NTs[0] = g.Mk(OpSeqOf, kids...)
+	g.Memo[0] = r.Intn(2) == 0
 	return g
 }
 
